@@ -214,18 +214,43 @@ class World:
         return Stub(name=f"{getattr(tz, 'name', tz)}", _eqkey=("other", str(getattr(tz, "name", tz))))
 
     def date(self, d: _dt.date) -> Obj:
+        def std(f, *a):
+            """a date of the standard library built from plain numbers: what it raises for numbers out of range is an outcome of the analysed code"""
+            try:
+                return f(*a)
+            except (ValueError, OverflowError) as e:
+                raise minieval.Raised(f"raise reached: {type(e).__name__}: {e}", type(e).__name__) from None
+
         def set_(year=None, month=None, day=None):
-            return self.date(_dt.date(d.year if year is None else year, d.month if month is None else month, d.day if day is None else day))
+            return self.date(std(_dt.date, d.year if year is None else year, d.month if month is None else month, d.day if day is None else day))
 
         def add(years=0, months=0, weeks=0, days=0):
-            return self.date(_shift(d, years, months, weeks, days))
+            return self.date(std(_shift, d, years, months, weeks, days))
 
         def subtract(years=0, months=0, weeks=0, days=0):
-            return self.date(_shift(d, -years, -months, -weeks, -days))
+            return self.date(std(_shift, d, -years, -months, -weeks, -days))
         own = self.cls == "Date"
         prim = dict(set=set_, replace=set_, on=set_, add=add, subtract=subtract)
         if own and self.interpret_add:
             del prim["add"], prim["subtract"]
+        if not own:
+            # the Date a DateTime hands out (date()): its class part is the analysed Date as well
+            key = ("Date-of", id(self.m))
+            if key not in World._STATIC:
+                dm_ = core.pmod("date")
+                dmeths = dm_.methods_mro("Date")
+                World._STATIC[key] = (dmeths, {k for k, f in dmeths.items() if any(core.dotted(x) == "property" for x in f.decorator_list)}, minieval.class_level(dm_, "Date"),
+                                      {**{st.name: st for st in dm_.top() if isinstance(st, ast.FunctionDef)},
+                                       "$globals": {**minieval.module_consts(dm_), "WeekDay": WEEKDAY, "calendar": minieval.std_module("calendar"), "ValueError": ValueError,
+                                                    "pendulum": Stub(_WEEK_STARTS_AT=(self.glob["$globals"]["pendulum"])._WEEK_STARTS_AT, _WEEK_ENDS_AT=(self.glob["$globals"]["pendulum"])._WEEK_ENDS_AT),
+                                                    "date": _dt.date, "timedelta": _dt.timedelta, "int": int, "str": str}})
+            dmeths, dprops, dfields, dfuncs = World._STATIC[key]
+            dctor = ClassStub(_new=lambda y, mo, dd: self.date(std(_dt.date, y, mo, dd)), _isa=lambda v: isinstance(v, Obj), _methods=lambda: dmeths, _funcs=dfuncs)
+            return Obj(_methods=dmeths, _props=dprops - {"day_of_week", "quarter", "days_in_month"}, _ctor=dctor, _funcs=dfuncs,
+                       _natives={}, _date=d, _wall=None, _eqkey=(d.toordinal(), 0), _types=(_dt.date,), **dfields,
+                       year=d.year, month=d.month, day=d.day, day_of_week=WEEKDAYS[d.weekday()], quarter=(d.month - 1) // 3 + 1,
+                       days_in_month=_calendar.monthrange(d.year, d.month)[1], format=lambda f, *a, **k: _format(d, f),
+                       weekday=d.weekday, isoweekday=d.isoweekday, toordinal=d.toordinal, **prim)
         return Obj(_methods=self.meths if own else {}, _props=self.props if own else set(), _ctor=self.ctor,
                    _natives={}, _date=d, _wall=None, _eqkey=(d.toordinal(), 0), _types=(_dt.date,), **({k: v for k, v in self.class_fields.items()} if own else {}),
                    year=d.year, month=d.month, day=d.day, day_of_week=WEEKDAYS[d.weekday()], quarter=(d.month - 1) // 3 + 1,
@@ -238,7 +263,10 @@ class World:
         F = ("year", "month", "day", "hour", "minute", "second", "microsecond")
 
         def fields(kw):
-            return _dt.datetime(*[getattr(w, n) if kw.get(n) is None else kw[n] for n in F])
+            try:
+                return _dt.datetime(*[getattr(w, n) if kw.get(n) is None else kw[n] for n in F])
+            except (ValueError, OverflowError) as e:       # numbers out of range: what the standard-library constructor raises is an outcome of the analysed code
+                raise minieval.Raised(f"raise reached: {type(e).__name__}: {e}", type(e).__name__) from None
 
         def set_(year=None, month=None, day=None, hour=None, minute=None, second=None, microsecond=None, tz=None):
             nw = fields(dict(year=year, month=month, day=day, hour=hour, minute=minute, second=second, microsecond=microsecond))
@@ -311,7 +339,12 @@ class TimeWorld:
                             in_seconds=lambda: int((abs(us) if kind == "AbsoluteDuration" else us) / 10**6))
             return ClassStub(_new=mk, _isa=lambda v: isinstance(v, Stub) and getattr(v, "_kind", None) in (("Duration", "AbsoluteDuration") if kind == "Duration" else (kind,)))
         self.glob: dict[str, Any] = {st.name: st for st in m.top() if isinstance(st, ast.FunctionDef)}
-        self.glob["$globals"] = {**consts, "Time": self.ctor, "time": _dt.time, "timedelta": _dt.timedelta, "datetime": Stub(time=_dt.time, timedelta=_dt.timedelta),
+        self.glob["$globals"] = {**consts, "Time": self.ctor, "time": _dt.time, "timedelta": _dt.timedelta, "datetime": Stub(time=_dt.time, timedelta=_dt.timedelta, date=_dt.date, timezone=_dt.timezone, tzinfo=_dt.tzinfo,
+                                                  # the native class: combine() reads a Time stub as the standard-library time it is
+                                                  datetime=ClassStub(_new=_dt.datetime, _isa=lambda v: isinstance(v, _dt.datetime), min=_dt.datetime.min, max=_dt.datetime.max,
+                                                                     combine=lambda d, t, *a: _dt.datetime.combine(d, vars(t)["_tod"].replace(tzinfo=vars(t).get("tzinfo"), fold=vars(t).get("fold", 0))
+                                                                                                                  if isinstance(t, Obj) else t, *a))),
+                                 "date": _dt.date,
                                  "Duration": dur("Duration"), "AbsoluteDuration": dur("AbsoluteDuration"), "NotImplemented": NotImplemented, "TypeError": TypeError,
                                  "DateTime": Stub(EPOCH=self._epoch()), "pendulum": Stub(Duration=dur("Duration")), "UTC": _dt.timezone.utc}
 
